@@ -29,12 +29,12 @@ TIE_NOTE = ("The hand-written model is tied to sanitize.go by differential runs 
 
 CLAIMED.update({
  "C01": _c("proof", "Theorem C01_items_partial (all token lists, all policies without AllowUnsafe): every tag the loop emits names an allowed element, comments only when allowed, "
-           "no doctype, everything else escaped input text or the AddSpace blank. Theorem C01_output_tokens (all input byte strings, every policy without comments and raw-text elements): the tokens the tokenizer model reads "
-           "from the sanitized bytes are text or tags of allowed elements, never comment or doctype (round-trip theorem retokenize_sanitize). Partial: byte level for comment/raw-text policies and the tree-builder clause are checked by the "
+           "no doctype, everything else escaped input text or the AddSpace blank. Theorem C01_output_tokens (all input byte strings, every policy without AllowUnsafe and raw-text elements; comments may be kept): the tokens the tokenizer model reads "
+           "from the sanitized bytes are text or tags of allowed elements, never comment or doctype (round-trip theorem retokenize_sanitize). Partial: byte level for raw-text policies and the tree-builder clause are checked by the "
            "implementation-side oracle (html.Tokenizer and html.ParseFragment in ten containers) on every generated case.", "DESIGN.md section 5 C01",
            TIE_NOTE + "Tree-builder clause argued, not proved.", "Coq proof over an executable model of the token loop + differential correspondence (bounded-exhaustive token sequences) + re-parse oracle"),
  "C05": _c("proof", "Theorems C05_tags / C05_literal_names / C05_body: for every policy value without AllowUnsafe (tables naming script/style, patterns matching them, modified skip sets included) "
-           "and every token list no script/style tag is emitted, nothing is written unescaped, and the raw-text body token after a script/style start or self-closing tag yields nothing; C05_output_tokens states the same of the tokens read back from the output bytes (policies without comments / other raw-text elements).",
+           "and every token list no script/style tag is emitted, nothing is written unescaped, and the raw-text body token after a script/style start or self-closing tag yields nothing; C05_output_tokens states the same of the tokens read back from the output bytes (policies without other raw-text elements).",
            "DESIGN.md section 5 C05", TIE_NOTE, "Coq proof over the loop model + bounded-exhaustive correspondence + marker oracle"),
  "C08": _c("proof", "Theorem C08_skipping_emits_nothing_partial: in the content-skipping state the loop emits nothing but the AddSpace blank (all token lists). C08_tree_semantics (induction over trees, Proofs/TreeSem.v): for every well-formed forest without script/style, every policy and matcher interpretation, the loop emits exactly the denotation out_node: a disallowed skip-content element leaves only AddSpace blanks (C08_skipped_content_absent, nesting included), everything else keeps its place; C08_texts: the output texts are exactly the texts outside such elements. Partial: the parse of arbitrary bytes into a forest (tree construction not modelled) "
            "is carried by the bounded-exhaustive loop correspondence and the marker oracle.", "DESIGN.md section 5 C08", TIE_NOTE,
@@ -45,12 +45,12 @@ CLAIMED.update({
  "C16": _c("proof", "Theorems C16_write_failure / C16_clean_prefix / C16_read_failure / C16_read_failure_buffer for every input, policy, write index k and sink behaviour after k.",
            "DESIGN.md section 5 C16", TIE_NOTE, "Coq proof over the write-sequence model + fault injection at every write index and reader offset"),
  "C11": _c("proof", "Theorems C11_first_loop_partial / C11_noopener_loop_partial / C11_noopener_keeps_tokens / C11_no_duplicate / C11_tokens_kept / C11_elements: the per-loop post-conditions of the link-hardening block for every attribute list and option combination "
-           "(tokens really present as white-space separated tokens, flags, first target, no duplication, nothing removed). C11_attrs composes them through link_pass and sanitizeAttrs: for every policy with one of the five options on, every a/area/link/base and every attribute list, if the returned list carries an href then rel exists and every rel has nofollow / noreferrer as required (fully-qualified variants when some href has a host), for a with a host-qualified href and AddTargetBlank the first target exists and is _blank, for a with some target _blank every rel has noopener, and existing rel tokens are kept. C11_output_tokens: the same for the tags read from the output bytes (policies without comments / raw-text elements). Partial: byte level for comment/raw-text policies; link correspondence (32 option combinations) and output oracle.",
+           "(tokens really present as white-space separated tokens, flags, first target, no duplication, nothing removed). C11_attrs composes them through link_pass and sanitizeAttrs: for every policy with one of the five options on, every a/area/link/base and every attribute list, if the returned list carries an href then rel exists and every rel has nofollow / noreferrer as required (fully-qualified variants when some href has a host), for a with a host-qualified href and AddTargetBlank the first target exists and is _blank, for a with some target _blank every rel has noopener, and existing rel tokens are kept. C11_output_tokens: the same for the tags read from the output bytes (policies without raw-text elements). Partial: byte level for raw-text policies; link correspondence (32 option combinations) and output oracle.",
            "DESIGN.md section 5 C11", TIE_NOTE, "Coq proofs by list induction over the model of the rel/target loops + differential correspondence on sanitizeAttrs + output oracle"),
  "C12": _c("proof", "Theorems C12_crossorigin / C12_sandbox / C12_sandbox_names for every element, attribute list, policy and matcher interpretation; the element table and the SandboxValue->token map are regenerated from the source and re-checked by computation.",
            "DESIGN.md section 5 C12", TIE_NOTE, "Coq proof by list induction over the model of sanitizeAttrs + generated-table instance facts + differential correspondence"),
  "C02": _c("proof", "Theorems C02_filter_sound_partial / C02_rule_accepts / C02_not_bare: every attribute surviving the filtering loop is justified by a rule of the element (explicit entry else merged pattern entries) or a global rule accepting the decoded value, "
-           "a well-formed data-* attribute, or the style filter; an element is never emitted bare unless allowed without attributes (all inputs, all policies). C02_final_list: every attribute of the list sanitizeAttrs returns is forced (rel/target/crossorigin/sandbox), justified and unchanged, or justified and replaced by validURL's result. C02_output_tokens: the same for every attribute a tokenizer reads from the output bytes (policies without comments / raw-text elements). Partial: byte level for comment/raw-text policies; covered by the attrs correspondence and the oracle.",
+           "a well-formed data-* attribute, or the style filter; an element is never emitted bare unless allowed without attributes (all inputs, all policies). C02_final_list: every attribute of the list sanitizeAttrs returns is forced (rel/target/crossorigin/sandbox), justified and unchanged, or justified and replaced by validURL's result. C02_output_tokens: the same for every attribute a tokenizer reads from the output bytes (policies without raw-text elements). Partial: byte level for raw-text policies; covered by the attrs correspondence and the oracle.",
            "DESIGN.md section 5 C02", TIE_NOTE, "Coq proof over the model of sanitizeAttrs and the token loop + differential correspondence on sanitizeAttrs"),
  "C03": _c("proof", "Theorems C03_gate_partial / C03_url_pass / C03_positions: a value accepted by validURL is the re-serialisation of a successful parse whose scheme is allowlisted (custom checks, scheme patterns) or which is scheme-less with relative URLs allowed; white space survives only in data: values; at URL positions only that value is kept; "
            "the fifteen positions are covered by linkable() and the URL switch (regenerated tables). Partial: the link between Go's parser and browser scheme extraction is an oracle hypothesis (monitored) and an output oracle.",
@@ -58,7 +58,7 @@ CLAIMED.update({
  "C10": _c("proof", "Theorems C10_filter / C10_no_rule_no_keep / C10_empty_dropped: the exact characterisation of the rebuilt style value (declarations kept in order iff a rule of the element or a global rule accepts the lower-cased, escape-stripped value for the lower-cased, prefix-stripped property). Partial: browser-equivalence of removeUnicode and of douceur's tokenisation is not claimed.",
            "DESIGN.md section 5 C10", TIE_NOTE, "Coq characterisation of the model of sanitizeStyles with douceur as oracle + differential correspondence on sanitizeStyles / removeUnicode"),
  "C06": _c("proof", "Theorems C06_text_emitted_once_partial / C06_read_back / C06_inert / C06_never_raw: a text token outside skipped and script/style regions is emitted exactly once, escaped; unescape(escape d) = d for every byte string; the escaped bytes contain no markup-significant character; nothing is written raw without AllowUnsafe. "
-           "C06_output_text / C06_output_text_equal (whole documents, policies without comments and raw-text elements, inputs without script/style/skip-content tags): the text read from the output bytes equals the text read from the input, plus exactly one blank per removed tag under AddSpaceWhenStrippingTag. Partial: policies that keep comments; the text-equality oracle checks it on every case.", "DESIGN.md section 5 C06", TIE_NOTE,
+           "C06_output_text / C06_output_text_equal (whole documents, policies without raw-text elements, inputs without script/style/skip-content tags): the text read from the output bytes equals the text read from the input, plus exactly one blank per removed tag under AddSpaceWhenStrippingTag. Partial: policies allowing raw-text elements; the text-equality oracle checks it on every case.", "DESIGN.md section 5 C06", TIE_NOTE,
            "Coq proof (induction over bytes for unescape-escape; loop case analysis) + token-stream and chunk correspondence + text equality oracle"),
  "C07": _c("proof", "Theorems C07_any_rule_suffices_partial / C07_additive / C07_accepted_attr_unchanged: a value accepted by any one of the rules covering an attribute is kept, adding a rule never rejects what was accepted, an accepted attribute passes the filter unchanged. "
            "C07_pass_through: a document that is the canonical serialisation of items the policy leaves alone is returned byte for byte (every policy, every such document; instance C04_sample_doc_unchanged). Partial: documents with comments or raw-text elements (pass-through oracle); explicit entries shadow pattern rules (finding F11).", "DESIGN.md section 5 C07", TIE_NOTE,
